@@ -26,7 +26,7 @@ LEVEL = "fault_enumeration"
 RULE = ("systematic sweep of the per-POST behaviour matrix (status x content-type x body kind x SSE encoding x exception x session header, one "
         "request and one notification each) + seeded sequences of 1..4 (thorough 6) messages with random behaviours/latencies; "
         "non-trivial = at least one POST was answered by something other than a plain 200 JSON response")
-PROBES = ["sse_dataless_typed_event", "line_separator_chars_in_payload", "sse_without_event_field", "sse_no_space_after_data", "sse_crlf", "sse_comment_lines", "sse_multiline_data", "sse_multi_event",
+PROBES = ["over_100_messages_in_one_answer", "misaddressed_response_with_a_later_requests_id", "sse_dataless_typed_event", "line_separator_chars_in_payload", "sse_without_event_field", "sse_no_space_after_data", "sse_crlf", "sse_comment_lines", "sse_multiline_data", "sse_multi_event",
           "json_batch_body", "error_status", "transport_exception", "timeout", "redirect_followed", "session_id_changed",
           "request_after_failure_answered", "empty_body", "notification_post_failed", "int_request_id"]
 TIERS = {"quick": {"runs": 12000, "wall": 45.0}, "thorough": {"runs": 600000, "wall": 560.0}}
@@ -83,6 +83,17 @@ def generate(rng: random.Random, tier: str) -> dict:
         if not notif:
             m["id"] = rng.choice([f"r{k}", f"r{k}", k, f"{k}", f"id-ü{k}"])  # unique per message; k=0 gives the falsy id 0
         msgs.append(m)
+    reqs = [i for i, m in enumerate(msgs) if not m["notif"]]
+    for a, i in enumerate(reqs[:-1]):
+        if rng.random() < 0.12:
+            j = rng.choice(reqs[a + 1:])
+            msgs[i]["beh"]["body"] = "wrong_id_as:" + json.dumps(msgs[j]["id"])
+    for i in reqs:
+        if rng.random() < 0.03:
+            msgs[i]["beh"]["body"] = "many:" + str(rng.choice([101, 150, 230]))
+            msgs[i]["beh"]["chunk"] = rng.choice([None, None, 64])
+            if msgs[i]["beh"]["sse"].get("multiline"):
+                msgs[i]["beh"]["sse"]["multiline"] = False
     return {"v": 1, "timeout": rng.choice([2.0, 0.5, 8.0]), "msgs": msgs, "init_session": rng.choice([None, None, "preset"]),
             "max_concurrent": rng.choice([10, 10, 1, 2, 3])}
 
@@ -185,6 +196,13 @@ def _messages_for(body, rid, k):
                 {"jsonrpc": "2.0", "method": "notifications/message", "params": {"data": mk + " a\u2028b\u0085c"}}, resp]
     if body == "wrong_id":
         return [{"jsonrpc": "2.0", "id": "somebody-else", "result": {"marker": mk}}]
+    if body.startswith("wrong_id_as:"):
+        # a mis-addressed response that carries the id a LATER request of this session is going to use
+        return [{"jsonrpc": "2.0", "id": json.loads(body.split(":", 1)[1]), "result": {"marker": mk, "misaddressed": True}}]
+    if body.startswith("many:"):
+        # more messages in one answer than the read stream buffers (100)
+        n = int(body.split(":")[1])
+        return [{"jsonrpc": "2.0", "method": "notifications/progress", "params": {"progressToken": "t", "progress": q, "marker": mk}} for q in range(n)] + [resp]
     if body == "notifs_only":
         return [{"jsonrpc": "2.0", "method": "notifications/message", "params": {"data": mk}}]
     return None
@@ -515,6 +533,10 @@ def execute(scn: dict) -> dict:
                 probe("sse_multi_event")
         if b["body"] == "batch" and "json" in ctype and b["status"] < 300 and not b.get("exc"):
             probe("json_batch_body")
+        if b["body"].startswith("many:") and b["status"] in (200, 202) and not b.get("exc") and ("json" in ctype or "event-stream" in ctype):
+            probe("over_100_messages_in_one_answer")
+        if b["body"].startswith("wrong_id_as:") and b["status"] in (200, 202) and not b.get("exc") and ("json" in ctype or "event-stream" in ctype):
+            probe("misaddressed_response_with_a_later_requests_id")
         if b["body"] in ("unicode_response", "notifs_then_response") and b["status"] < 300 and not b.get("exc"):
             probe("line_separator_chars_in_payload")
         matched = None
